@@ -210,6 +210,15 @@ func Assert(c bool, label string) {
 	}
 }
 
+// Possible states an existential obligation: the executor reports a violation when c is false
+// for EVERY value of the environment's free choices (e.g. random bytes) on this path; a
+// native run reports it when c is false in that run.
+func Possible(c bool, label string) {
+	if !c {
+		panic(Violation{label})
+	}
+}
+
 // Reach marks a point that must be reachable (vacuity witness).
 func Reach(label string) { Reached[label] = true }
 
